@@ -1,4 +1,4 @@
-HOOK_COMMITS = ["02bc05e"]
+HOOK_COMMITS = ["02bc05e", "18a3dee"]
 NOT_APPLICABLE = {}
 TEXT = {
  "C08": {
@@ -76,5 +76,29 @@ TEXT = {
   "design_ref": "§3 C18",
   "note": "JSON-RPC server survival and embedded getters are not theorems (runtime / correspondence).",
   "technique": "Lean 4 proof (omega) + differential correspondence",
+ },
+ "C14": {
+  "text": "Kernel-checked theorems over the Go-faithful model of higherPriority (uint64 products), filterBlocksToCommit "
+          "and the per-address memdbManager-backed pool: the competition rule is total/antisymmetric for all uint64 inputs, "
+          "transitive and arrival-order independent in the accepted plasma range (negative witnesses for zero plasma and "
+          "wrap-around), the momentum content is the longest batch-boundary prefix within the limit, and the pooled blocks "
+          "form one chain above the confirmed frontier under all operation sequences; tied by regenerated constants and "
+          "differential streams.",
+  "design_ref": "§3 C14",
+  "note": "Data-race freedom and reader atomicity are runtime properties (not theorems). The pool state machine is a "
+          "hand-written model; the two pure decision functions are tied by differential streams.",
+  "technique": "Lean 4 proof (induction/omega) + regenerated constants + differential correspondence",
+ },
+ "C11": {
+  "text": "Kernel-checked theorems over the Go-faithful model (wrapping int64, truncating big.Int.Quo) of the reward "
+          "arithmetic: rounded-down pro-rata shares never exceed the split amount (stake, sentinel, pillar/backers, "
+          "liquidity stake), the pillar formula stays within (delegation+producing per momentum) x expected momentums, "
+          "and for every uint64 epoch the regenerated emission tables give non-negative pieces that sum to at most the "
+          "network emission per coin; tied by regenerated tables and a differential stream that runs the real contract "
+          "functions on an in-memory storage.",
+  "design_ref": "§3 C11",
+  "note": "Arithmetic part only (T1-T3). Epoch cursor (exactly once, in order), collect-once and node-independence are "
+          "not covered by this check yet.",
+  "technique": "Lean 4 proof (induction/omega/decide over generated tables) + regenerated constants + differential correspondence",
  },
 }
